@@ -36,6 +36,7 @@ SHAPES = {
     "odd": ("/x y/é", "/x/y", "/x.y/z"),
 }
 BOUNDS = {"quick": {"history": 3, "versions": "symbolic in {1,2} per step", "payload": "symbolic ASCII str <= 1", "shapes": ["flat", "deep", "deep2"], "stores": ["memory", "local", "lru"]}, "thorough": {"history": 3, "shapes": list(SHAPES), "stores": ["memory", "local", "lru"]}}
+BUDGET_S = {"thorough": 900}  # wall budget of the thorough tier: queries not started by then are reported as not run
 LAST_DETAIL = [""]
 INT_DIR, DATA_DIR = "/s/int", "/s/data"
 
